@@ -105,7 +105,7 @@ func zzYield() {
 	}
 	time.Sleep(3 * time.Millisecond)
 }
-func zzExpectExit()             {}
-func zzTimersActive() int       { return -1 }
-func zzTimersCreated() int      { return -1 }
-func zzGoroutines() int         { return -1 }
+func zzExpectExit()        {}
+func zzTimersActive() int  { return -1 }
+func zzTimersCreated() int { return -1 }
+func zzGoroutines() int    { return -1 }
